@@ -23,7 +23,62 @@ EXPLANATION = (
     "connection_lost / eof_received reach _close_transport, which tolerates RuntimeError from a closed loop. Observed open/close "
     "histories of real transports are not decided."
     ' (R6, shared with C05.R3) _ensure_lock reuses the lock only after comparing the event loops; a new lock records the loop and closes the old transport.'
+    ' (R7) inventory of loop-bound attributes (lock, futures, timer handles): each is renewed by _ensure_lock or cancelled / cleared by _close_transport on a loop change.'
 )
+
+
+LOOP_BOUND_MAKERS = {"create_future", "Future", "Lock", "Event", "Condition", "Semaphore", "BoundedSemaphore", "Queue", "create_task", "ensure_future",
+                     "call_later", "call_soon", "call_at", "call_soon_threadsafe"}
+
+
+def loop_bound_inventory(ctx: Ctx, rep: Report):
+    """After asyncio.run() returns, everything created on that loop is dead: awaiting a future of it in the next loop
+    raises RuntimeError ('attached to a different loop'), a lock of it cannot be waited on.  So each attribute of the
+    protocol classes that is assigned such an object must be handled where the loop change is detected: re-created by
+    _ensure_lock on the path that installs the new lock, or cancelled / cleared by _close_transport (which that path
+    calls)."""
+    from ..astutil import self_store
+    prog = ctx.prog
+    base = prog.cls("InverterProtocol")
+    el, ct = base.methods.get("_ensure_lock"), base.methods.get("_close_transport")
+    if el is None or ct is None:
+        raise AnalysisError("_ensure_lock / _close_transport not found")
+    bound = {}
+    for ci in prog.all_subclasses(base, include_self=True):
+        for m in ci.methods.values():
+            for st in [x for x in ast.walk(m.node) if isinstance(x, ast.stmt)]:
+                for a, v, _ in self_store(st):
+                    if isinstance(v, ast.Call):
+                        name = v.func.attr if isinstance(v.func, ast.Attribute) else (v.func.id if isinstance(v.func, ast.Name) else "")
+                        if name in LOOP_BOUND_MAKERS:
+                            bound.setdefault(a, (m, st))
+    if any(isinstance(x, ast.Attribute) and x.attr == "response_future" for x in ast.walk(base.node)):
+        bound.setdefault("response_future", (base.methods.get("__init__") or el, el.node))
+    def handled_by(root):
+        out = set()
+        for f in ctx.res.reachable([root]):
+            if f.cls is None or not any(f.cls is c for k in prog.all_subclasses(base, include_self=True) for c in prog.mro(k) if hasattr(c, "methods")):
+                continue
+            for st in [x for x in ast.walk(f.node) if isinstance(x, ast.stmt)]:
+                for a, _, _ in self_store(st):
+                    out.add(a)
+            for n in ast.walk(f.node):
+                if isinstance(n, ast.Call) and isinstance(n.func, ast.Attribute) and n.func.attr in ("cancel", "close", "set_result", "set_exception"):
+                    c = chain(n.func.value)
+                    if c and len(c) == 2 and c[0] == "self":
+                        out.add(c[1])
+        return out
+    handled_el = handled_by(el)          # includes what _close_transport (called on the renewing path) and helpers do
+    handled_ct = handled_by(ct)
+    calls_ct = ct in ctx.res.reachable([el])
+    if len(bound) < 2:
+        raise AnalysisError("expected the lock and the timer among the loop-bound attributes, found %s" % sorted(bound))
+    for a, (m, st) in sorted(bound.items()):
+        ok = a in handled_el or (calls_ct and a in handled_ct)
+        rep.check(ok, "C10.R7", "loop-bound:%s" % a, m.loc(st) if hasattr(st, "lineno") else m.loc(),
+                  "self.%s (loop-bound) is %s on a loop change" % (a, "re-created by _ensure_lock" if a in handled_el else "cancelled / cleared by _close_transport"),
+                  bad="self.%s holds an object bound to the event loop it was created on (%s in %s) but neither _ensure_lock nor _close_transport renews, cancels or clears it when the loop changes: "
+                      "after a new asyncio.run() the next request waits on / completes an object of the dead loop (RuntimeError: attached to a different loop) instead of reconnecting" % (a, norm(st.value)[:50] if hasattr(st, "value") and st.value is not None else "assigned", m.short))
 
 
 def check(ctx: Ctx, rep: Report):
@@ -32,6 +87,8 @@ def check(ctx: Ctx, rep: Report):
     rep.rule("C10.R3", "keep-alive off => closed on every exit of a request; close() and _max_retries_reached always reach _close_transport", 8)
     rep.rule("C10.R4", "loop change and connection loss close the transport; _close_transport tolerates RuntimeError", 5)
     rep.rule("C10.R5", "keep-alive on: a successful request does not close the transport", 4)
+    rep.rule("C10.R7", "every attribute of the protocol object that holds something bound to an event loop (lock, future, timer handle) is renewed by _ensure_lock or cancelled / cleared by _close_transport when the loop changes", 2)
+    loop_bound_inventory(ctx, rep)
     rep.rule("C10.R6", "use from a new event loop is detected exactly: the lock is reused only after comparing the loops, a new lock records the loop and closes the old transport (shared with C05.R3)", 1)
     from .c05 import r3 as _c05_r3
     from ..core import Report as _Report
